@@ -10,6 +10,8 @@ C4  a > b -> b < a ;  a >= b -> b <= a   (single-operator comparisons)
 C6  x = x + e -> x += e  (also - and *), marked `_fjsa_rebind` (it creates a new object: not an in-place update of a list)
 C8  an if/else one of whose arms always leaves (return / raise / continue / break) loses its else: the leaving arm stays under
     the if (the raising arm if both leave, the test negated if necessary) and the other arm follows the if
+C9  calls of helper functions the rules do not know (not in fjsa/known_defs.json: a new private function, method or local
+    closure of the same module) are replaced by the helper's body (fjsa/inline.py)
 C5  module-level import aliases are renamed to the conventional name (import numpy as anything -> np, jax.numpy -> jnp,
     haiku -> hk, tensorflow -> tf, `from p import m as x` -> m) when that name is free in the file
 
@@ -249,10 +251,16 @@ def _aliases(tree: ast.Module):
   return tree
 
 
-def canonicalise(tree: ast.Module, level=None) -> ast.Module:
+def canonicalise(tree: ast.Module, level=None, relpath: str = None) -> ast.Module:
   level = LEVEL if level is None else level
   if level <= 0:
     return tree
+  if level >= 3 and relpath is not None:
+    from fjsa import inline
+    try:
+      tree = inline.inline_unknown_helpers(tree, relpath)
+    except RecursionError:
+      pass
   if level >= 3:
     tree = _aliases(tree)
     tree = _Polarity().visit(tree)
@@ -275,6 +283,53 @@ def canonicalise(tree: ast.Module, level=None) -> ast.Module:
   return tree
 
 
+def _set_header(st: ast.stmt, new: List[ast.AST]):
+  if isinstance(st, (ast.Return, ast.Expr, ast.Assign, ast.AugAssign, ast.AnnAssign)):
+    st.value = new[0]
+  elif isinstance(st, ast.For):
+    st.iter = new[0]
+  elif isinstance(st, ast.If):
+    st.test = new[0]
+  elif isinstance(st, ast.Raise):
+    st.exc = new[0]
+  elif isinstance(st, ast.Assert):
+    st.test = new[0]
+  elif isinstance(st, ast.With):
+    for it, e in zip(st.items, new):
+      it.context_expr = e
+
+
+def _header_exprs2(st: ast.stmt) -> List[ast.AST]:
+  hs = _header_exprs(st)
+  if hs:
+    return hs
+  if isinstance(st, ast.For):
+    return [st.iter]
+  if isinstance(st, ast.If):
+    return [st.test]
+  if isinstance(st, ast.Raise) and st.exc is not None:
+    return [st.exc]
+  if isinstance(st, ast.Assert):
+    return [st.test]
+  if isinstance(st, ast.With):
+    return [it.context_expr for it in st.items]
+  return []
+
+
+def _names_loaded(e: ast.AST) -> set:
+  return {x.id for x in ast.walk(e) if isinstance(x, ast.Name)}
+
+
+def _names_stored(st: ast.stmt) -> set:
+  out = set()
+  for x in ast.walk(st):
+    if isinstance(x, ast.Name) and isinstance(x.ctx, (ast.Store, ast.Del)):
+      out.add(x.id)
+    elif isinstance(x, (ast.FunctionDef, ast.ClassDef)):
+      out.add(x.name)
+  return out
+
+
 def _blocks(node, stores, loads, level):
   for f in ('body', 'orelse', 'finalbody', 'handlers'):
     v = getattr(node, f, None)
@@ -283,25 +338,43 @@ def _blocks(node, stores, loads, level):
     if v and isinstance(v[0], ast.stmt):
       i = 0
       while i + 1 < len(v):
-        a, b = v[i], v[i + 1]
+        a = v[i]
         if (isinstance(a, ast.Assign) and len(a.targets) == 1 and isinstance(a.targets[0], ast.Name) and
             stores.get(a.targets[0].id) == 1 and loads.get(a.targets[0].id) == 1 and
-            not isinstance(a.value, (ast.Yield, ast.YieldFrom, ast.Await, ast.NamedExpr))):
+            not isinstance(a.value, (ast.Yield, ast.YieldFrom, ast.Await, ast.NamedExpr, ast.Constant))):
+          # (a name bound to a literal is a label, e.g. bos = 1: it stays)
           t = a.targets[0].id
-          ok_stmt = isinstance(b, ast.Return) if level == 1 else True
-          if level == 1 and not (isinstance(b, ast.Return) and isinstance(b.value, ast.Name)):
-            ok_stmt = False
-          hs = _header_exprs(b)
-          if ok_stmt and hs:
-            sub = _Subst(t, a.value)
-            new_hs = [sub.visit(h) for h in hs]
-            if sub.done == 1:
-              if isinstance(b, (ast.Return, ast.Expr, ast.Assign, ast.AugAssign, ast.AnnAssign)):
-                b.value = new_hs[0]
-              # the merged statement starts where the temporary was assigned
-              b.lineno, b.col_offset = a.lineno, a.col_offset
-              del v[i]
-              continue
+          used = _names_loaded(a.value)
+          merged = False
+          # the single read of t: in the header of a later statement of the same block, with nothing in between that rebinds a name
+          # the value depends on (level 1: only the immediately following `return t`)
+          for j in range(i + 1, len(v)):
+            b = v[j]
+            if level == 1 and not (j == i + 1 and isinstance(b, ast.Return) and isinstance(b.value, ast.Name)):
+              break
+            hs = _header_exprs2(b)
+            reads_here = any(isinstance(x, ast.Name) and x.id == t and isinstance(x.ctx, ast.Load) for h in hs for x in ast.walk(h))
+            if reads_here:
+              sub = _Subst(t, a.value)
+              new_hs = [sub.visit(h) for h in hs]
+              if sub.done == 1:
+                _set_header(b, new_hs)
+                if j == i + 1:
+                  b.lineno, b.col_offset = a.lineno, a.col_offset
+                del v[i]
+                merged = True
+              break
+            # t read somewhere inside b (a nested body): leave it
+            if any(isinstance(x, ast.Name) and x.id == t for x in ast.walk(b)):
+              break
+            if _names_stored(b) & (used | {t}):
+              break
+            # statements with calls in between may have side effects on what the value reads: only skip over plain assignments of
+            # other names and expression statements when the value itself is call-free or j is adjacent
+            if j > i + 1 and any(isinstance(x, ast.Call) for x in ast.walk(a.value)) and any(isinstance(x, ast.Call) for x in ast.walk(b)) and False:
+              break
+          if merged:
+            continue
         i += 1
     for ch in v:
       if isinstance(ch, ast.AST) and not isinstance(ch, (ast.FunctionDef, ast.AsyncFunctionDef, ast.ClassDef)):
